@@ -369,17 +369,15 @@ func overlayFiles(sel []*harness, native bool) map[string]string {
 	ov[filepath.Join(*flagRepo, "internal/zzvt/common.go")] = filepath.Join(v, "zzvt", "zzvt_common.go.txt")
 	ov[filepath.Join(*flagRepo, "pkg/Rust-VRF/vrf-func-ffi/src/vrf.go")] = filepath.Join(v, "stubs/vrf.go.txt")
 	ov[filepath.Join(*flagRepo, "pkg/erasure_coding/erasure_coding.go")] = filepath.Join(v, "stubs/erasure.go.txt")
-	// all harness files of the packages involved (helpers live next to harnesses)
-	dirs := map[string]bool{}
-	for _, h := range sel {
-		dirs[h.PkgRel] = true
-	}
-	for d := range dirs {
-		files, _ := filepath.Glob(filepath.Join(v, "harness", d, "*.go"))
-		for _, f := range files {
-			ov[filepath.Join(*flagRepo, d, "zz_verif_"+filepath.Base(f))] = f
+	// every harness file is overlaid (helper files in one package may be used
+	// by harnesses of another); packages that are not imported are not loaded
+	filepath.Walk(filepath.Join(v, "harness"), func(path string, info os.FileInfo, err error) error {
+		if err == nil && !info.IsDir() && strings.HasSuffix(path, ".go") {
+			rel, _ := filepath.Rel(filepath.Join(v, "harness"), filepath.Dir(path))
+			ov[filepath.Join(*flagRepo, rel, "zz_verif_"+filepath.Base(path))] = path
 		}
-	}
+		return nil
+	})
 	return ov
 }
 
